@@ -39,9 +39,9 @@ type capCfg struct{ msg, qry capServer }
 // modules that implement appmodule.HasServices register on the configurator itself; the SDK's configurator sorts the
 // service into Msg / Query by its proto option, here every method whose request is an sdk.Msg counts (captureServers)
 func (c capCfg) RegisterService(sd *grpc.ServiceDesc, ss interface{}) { c.msg.RegisterService(sd, ss) }
-func (c capCfg) Error() error                                   { return nil }
-func (c capCfg) MsgServer() gogogrpc.Server                     { return c.msg }
-func (c capCfg) QueryServer() gogogrpc.Server                   { return c.qry }
+func (c capCfg) Error() error                                         { return nil }
+func (c capCfg) MsgServer() gogogrpc.Server                           { return c.msg }
+func (c capCfg) QueryServer() gogogrpc.Server                         { return c.qry }
 func (c capCfg) RegisterMigration(string, uint64, module.MigrationHandler) error {
 	return nil
 }
